@@ -47,6 +47,7 @@ func init() {
 		zz + "Tag":             extTag,
 		zz + "Note":            func(fr *frame, a []value) value { fr.i.x.notes = append(fr.i.x.notes, concreteStr(a[0])); return nil },
 		zz + "ExpectPanic":     func(fr *frame, a []value) value { fr.i.x.expectPanic = a[0].(string); return nil },
+		zz + "ContinueAfterKnown": func(fr *frame, a []value) value { fr.i.x.continueKnown = a[0].(bool); return nil },
 		zz + "MapOrder":        func(fr *frame, a []value) value { fr.i.x.mapReverse = a[0].(bool); return nil },
 		zz + "Register":        func(fr *frame, a []value) value { return nil },
 		zz + "RunUntilBlocked": extRunUntilBlocked,
